@@ -737,6 +737,11 @@ class PageElement(object):
         anchor: PageElement = self
         results: List[PageElement] = []
         for successor in args:
+            if successor is anchor:
+                # The same element twice in a row: it was just put
+                # in place. Extracting it again would take the anchor
+                # itself out of the tree.
+                continue
             # Extract first so that the index won't be screwed up if they
             # are siblings.
             if isinstance(successor, PageElement):
